@@ -21,9 +21,10 @@ CONFIGS = {"quick": "Dwarf_q.cfg", "thorough": "Dwarf_t.cfg"}
 TLC_TIMEOUT = {"quick": 300, "thorough": 1500}
 # seeded random inputs added to the TLC-generated cases (inputs only; the
 # expected results of these cases are computed by TraceDwarf.tla as well)
-RANDOM_CONST = {"quick": 3000, "thorough": 40000}
-RANDOM_ITEMS = {"quick": 6000, "thorough": 80000}
-JOBS = int(os.environ.get("VERIF_JOBS", "16"))          # JVMs / runner processes
+RANDOM_CONST = {"quick": 2000, "thorough": 40000}
+RANDOM_ITEMS = {"quick": 4000, "thorough": 80000}
+JOBS = int(os.environ.get("VERIF_JOBS", "16"))          # JVMs / runner processes (upper bound)
+TIER_JOBS = {"quick": 8, "thorough": 16}                 # one JVM start costs about as much as 5000 traces
 WORKERS = int(os.environ.get("VERIF_TLC_WORKERS", "16"))  # TLC workers of the MC run
 
 # Findings reported with this check and not (yet) recorded in
@@ -126,9 +127,10 @@ def run(prop: str, tier: str, replay: str = None) -> int:
             total = build_cases(gen, cases, tier, rng)
             rep.extra["random_cases"] = total - res["emitted"]
             os.remove(gen)
-        shards = core.split_file(cases, JOBS, wd, "cases")
+        jobs = min(JOBS, TIER_JOBS[tier])
+        shards = core.split_file(cases, jobs, wd, "cases")
         traces = core.run_module_parallel("harness.dwarf.runner", shards, wd, "dwarf")
-        verdicts = tlc.validate_sharded("TraceDwarf.tla", "TraceDwarf.cfg", traces, jobs=JOBS,
+        verdicts = tlc.validate_sharded("TraceDwarf.tla", "TraceDwarf.cfg", traces, jobs=jobs,
                                         timeout=1500)
         case_by_id: Dict[str, dict] = {}
         with open(cases) as f:
